@@ -125,7 +125,10 @@ def describe(f, a, u, h):
 
 
 def ideal_text(f, e):
-    return str(dt(e).date()) if f in ('DATE', 'EDATE', 'EOMONTH') else str(e)
+    try:
+        return str(dt(e).date()) if f in ('DATE', 'EDATE', 'EOMONTH') else str(e)
+    except OverflowError:
+        return f'serial {e}'
 
 
 def gen(run):
@@ -197,6 +200,8 @@ def samples(run, recs):
         if f == 'DATE':
             evs.append({'f': 'DATE', 'a': a, 'u': '', 'h': [], 'obs': as_int(*r), 'raw': show(*r)})
         elif f == 'EOMONTH':
+            if not 1902 <= dt(exp).year + a[1] // 12 <= 9997:
+                continue
             evs.append({'f': 'EOMONTH', 'a': [exp, a[1]], 'u': '', 'h': [], 'obs': as_int(*r), 'raw': show(*r)})
         else:
             d = dt(exp)
